@@ -359,6 +359,11 @@ pub struct PropResult<V> {
     pub aborted: Option<String>,
 }
 
+/// wall-clock budget for reducing a failure (proptest shrinking, then the greedy minimizer)
+pub fn shrink_budget() -> std::time::Duration {
+    std::time::Duration::from_secs(std::env::var("VERIF_SHRINK_SECS").ok().and_then(|s| s.parse().ok()).unwrap_or(25))
+}
+
 /// Run `total_cases` cases of `strategy` through `test` on `threads` runners. Each runner has its
 /// own deterministic RNG derived from (seed, runner index). The first failure stops the others;
 /// the failing runner shrinks its case (the closure is re-run during shrinking, statistics are
@@ -401,15 +406,26 @@ where
                 cfg.verbose = 0;
                 let mut runner = TestRunner::new(cfg);
                 let failed_here = AtomicBool::new(false);
+                let failed_at: Mutex<Option<std::time::Instant>> = Mutex::new(None);
+                let budget = shrink_budget();
                 let strategy = mk_strategy();
                 let r = runner.run(&strategy, |v| {
                     if stop.load(Ordering::Relaxed) && !failed_here.load(Ordering::Relaxed) {
                         // another runner failed: finish quickly
                         return Ok(());
                     }
+                    // shrinking is bounded in time as well as in iterations: past the budget
+                    // every further candidate counts as passing (the failure itself is
+                    // established; only its reduction stops early)
+                    if let Some(t0) = *failed_at.lock() {
+                        if t0.elapsed() > budget {
+                            return Ok(());
+                        }
+                    }
                     match test(&v) {
                         Ok(()) => Ok(()),
                         Err(m) => {
+                            failed_at.lock().get_or_insert_with(std::time::Instant::now);
                             failed_here.store(true, Ordering::Relaxed);
                             stop.store(true, Ordering::Relaxed);
                             stats.frozen.store(true, Ordering::Relaxed);
